@@ -145,7 +145,10 @@ func ZZ_C04_float() {
 	w := rt.Param("w")
 	var menu []float64
 	if w == 4 {
-		menu = []float64{0, 1.5, -2.25, 0.1, float64(float32(0.1)), math.MaxFloat32, -math.MaxFloat32, math.SmallestNonzeroFloat32, 16777216, 1e-10, 3e38, 123456.789}
+		menu = []float64{0, 1.5, -2.25, 0.1, float64(float32(0.1)), math.MaxFloat32, -math.MaxFloat32, math.SmallestNonzeroFloat32, 16777216, 1e-10, 3e38, 123456.789,
+			// the float32 whose shortest decimal lies within half a float64 ulp of the midpoint of two
+			// float32 neighbours (reading it through float64 and narrowing rounds twice), and -0
+			float64(math.Float32frombits(0x15AE43FD)), float64(math.Float32frombits(0x95AE43FD)), math.Copysign(0, -1)}
 	} else {
 		menu = []float64{0, 1.5, -2.25, 0.1, math.MaxFloat64, -math.MaxFloat64, math.SmallestNonzeroFloat64, 9007199254740993, 1e-300, 1e300, 123456.789, math.Copysign(0, -1)}
 	}
